@@ -1,5 +1,5 @@
 (* Soundness of the boolean IR equivalence for decoders. *)
-From FP Require Import Eqv BytesLemmas EqvSoundEnc.
+From FP Require Import Eqv BytesLemmas EqvSoundEnc DecRepeat.
 From Coq Require Import Lia.
 Open Scope list_scope.
 
@@ -106,6 +106,7 @@ Section Ext.
     - cbn [dec_elem]. match goal with Ho : order_eqb _ _ _ = true |- _ => rewrite (order_eqb_dec _ _ _ rd Ho) end.
       destruct (dec_int _ _ rd) as [[n rd']|]; [|reflexivity].
       destruct (guard_skips _ _ n); [reflexivity|].
+      rewrite !dec_repeat_n_eq.
       rewrite (dec_repeat_ext (dec_elem rec1 e members) (dec_elem rec2 e' members)); [reflexivity|].
       intros rd0. apply IHe. assumption.
     - cbn [dec_elem]. apply Hrec.
